@@ -6,6 +6,8 @@ pub mod c02;
 pub mod c03;
 pub mod c04;
 pub mod assets;
+#[allow(dead_code)]
+pub mod assets_gen;
 pub mod c17;
 pub mod c18;
 pub mod damage;
